@@ -10,3 +10,4 @@ pub mod diff;
 pub mod opcodes;
 pub mod features;
 pub mod corpus;
+pub mod hostile;
